@@ -10,6 +10,12 @@ Histories:  hist l<setting indices> <op|op|…>   ops: r (read .version) m (read
             pehist <kind> <data> <maxrange> <op:start:seek:expect|…>   (seek '-' = keep the position left by the previous call)
             answers of the steps are joined by ' | '.
 Version:    ver l<code points> | tbl pe|enum <key> | cfg <stamp|none> l<setting indices> | fmt maj min patch y m d
+
+Streams `g-*` / `pyu`: the six pe.py helpers are also TRANSLATED from their source on every run (plug-in gen/py_pe.py →
+lean/CsVerif/Gen/PyPe.lean; Props/C18Gen.lean proves the translation equal to the model).  Every PE / pehist case is also executed
+through the translated definition (`g-<stream>`: line `g<line>`; `start` / `maxrange` that equal the documented default are written
+`dflt` in half of the cases = left out of the real call, the Lean side then uses the default the SOURCE has), `g-arg` runs it on
+arguments of any kind, `pyu` runs the operations of Model/PyU_T18.lean against dissect.cstruct / CPython.
 """
 from __future__ import annotations
 
@@ -23,10 +29,12 @@ from dissect.cobaltstrike import pe, version
 from dissect.cobaltstrike.beacon import BeaconConfig
 
 from . import common as C
+from . import pyuval, pyuval_t15, pyuval_t18
 
 ID = "C18"
 DRIVER = "drv_c18"
-GEN = ["version", "pestruct"]
+GEN = ["version", "pestruct", "py_utils", "py_scan", "py_pe"]
+EXTRA_PROP_FILES = ["Props/C18Gen.lean"]
 PE_OPS = ("mz", "arch", "stamps", "mmz", "mpe", "ppa")
 STREAMS = {
     "mz": {"relevant": True, "desc": "pe.find_mz_offset"},
@@ -47,13 +55,32 @@ STREAMS = {
     "pehist": {"relevant": True, "desc": "several pe.find_* calls on the SAME file object in different orders / from different positions"},
     "cls": {"relevant": False, "desc": "character classes of the str patterns: re \\s, \\d and int() over all code points"},
     "mono": {"relevant": True, "desc": "table monotonicity on every key pair through the real BeaconVersion constructors"},
+    "g-mz": {"relevant": False, "desc": "pe.find_mz_offset TRANSLATED from its source (Gen/PyPe.lean) vs the function, on every case of mz"},
+    "g-arch": {"relevant": False, "desc": "translated find_architecture vs the function on every case of arch"},
+    "g-stamps": {"relevant": False, "desc": "translated find_compile_stamps vs the function on every case of stamps"},
+    "g-mmz": {"relevant": False, "desc": "translated find_magic_mz vs the function on every case of mmz"},
+    "g-mpe": {"relevant": False, "desc": "translated find_magic_pe vs the function on every case of mpe"},
+    "g-ppa": {"relevant": False, "desc": "translated find_stage_prepend_append vs the function on every case of ppa"},
+    "g-pehist": {"relevant": False, "desc": "several translated pe.find_* calls on ONE file object vs the functions, on every case of pehist"},
+    "g-tbl": {"relevant": False, "desc": "BeaconVersion.from_pe_export_stamp / from_max_setting_enum TRANSLATED from their source vs the functions, on every case of tbl"},
+    "g-cfg": {"relevant": False, "desc": "BeaconConfig.version translated from its source vs the property, on every case of cfg"},
+    "g-hist": {"relevant": False, "desc": "histories on ONE BeaconConfig with the reads of .version done by the translated property, on every case of hist"},
+    "g-argv": {"relevant": False, "desc": "the translated from_* classmethods vs the functions on keys of ANY kind (bool / None / str / bytes / tuple / list)"},
+    "g-arg": {"relevant": False, "desc": "the translated helpers vs the functions on arguments of ANY kind (None / str / bytes / bool / list where an int, "
+              "a non-file where a file is expected)"},
+    "pyu": {"relevant": False, "desc": "the operations of Model/PyU_T18.lean (cstruct types read from BytesIO / a real file incl. the position an EOFError "
+            "leaves, `[Type(fh) for _ in range(n)]`, int.to_bytes) vs dissect.cstruct / CPython on random operands"},
 }
+G_STREAMS = set(PE_OPS) | {"pehist", "tbl", "cfg", "hist"}
 TRUSTED = [
     "tools/harness/c18.py (struct.pack image builder = ground truth, generators, adapters); line protocol parsing in lean/CsVerif/Driver/C18.lean",
     "tools/gen/version.py, tools/gen/pestruct.py (tables, struct layouts measured on the loaded cstruct classes)",
     "dissect.cstruct structure reads are modelled as read(size)+EOFError-when-short; CPython re / _strptime / datetime.date / int() "
     "are modelled (Model/C18.lean: matchVersion, strptimeDate, validDate, digitValue?), not verified — exercised by the ver/fmt/cls streams; "
     "io.BytesIO / file objects by Model/PyFile.lean",
+    "tools/py2leanu.py + lean/CsVerif/Model/PyU.lean, PyU_T15.lean, PyU_T02.lean, PyU_T18.lean + tools/gen/py_pe.py (source → Lean translation of the six "
+    "pe.py helpers: Props/C18Gen.lean proves the translation equal to the hand-written model; the g-* streams run the translated definitions against "
+    "the real functions on every PE / pehist case and on arguments of any kind, the pyu stream runs the PyU_T18 operations against dissect.cstruct)",
 ]
 ASSUMPTIONS = [
     "version strings: any Python str (Unicode digits and white space are table-driven, measured on re/int at generation time); "
@@ -304,7 +331,7 @@ def safe_prepend(rng, n):
 # generators
 # --------------------------------------------------------------------------------------------------
 
-def gen(tier, rng, shard, nshards):
+def gen0(tier, rng, shard, nshards):
     thorough = tier == "thorough"
     k = 0
 
@@ -831,7 +858,7 @@ def _pe_call(fh, op, start, maxrange):
     raise RuntimeError("unknown pe op " + op)
 
 
-def impl(stream, line):
+def impl0(stream, line):
     _LINE[0] = line
     w = line.split(" ")
     if stream in PE_OPS:
@@ -940,7 +967,7 @@ def impl(stream, line):
     raise RuntimeError("unknown stream " + stream)
 
 
-def nontrivial(stream, line, out):
+def nontrivial0(stream, line, out):
     if out.startswith("exc "):
         return False
     if stream in ("mz", "arch", "mmz"):
@@ -972,7 +999,7 @@ def _days_in_month(y, m):
     return 30 if m in (4, 6, 9, 11) else 31
 
 
-def oracle(stream, line, out):
+def oracle0(stream, line, out):
     """Independent statement of the property on the implementation's own output."""
     w = line.split(" ")
     if stream in PE_OPS:
@@ -1028,6 +1055,8 @@ def oracle(stream, line, out):
         arch, comp, exs = w[3].split("_")
         enums = C.unints(w[2])
         st = None if exs == "none" else int(exs)
+        if not st and not enums:
+            return None  # max() of an empty configuration: ValueError, outside the statement
         want = version.PE_EXPORT_STAMP_TO_VERSION.get(st, "Unknown") if st else version.MAX_ENUM_TO_VERSION.get(max(enums), "Unknown")
         return out == f"ok {arch} {comp} {exs} ok {txt(want)}"
     if stream == "cfg":
@@ -1138,7 +1167,7 @@ def _shape_ok(text: str, ver_out: str) -> bool:
     return ver_out == f"ok {C.ints(tup)} {y} {m} {d} {txt(vo)}"
 
 
-def shrink(stream, line):
+def shrink0(stream, line):
     if stream in ("hist", "verhist"):
         w = line.split(" ")
         steps = w[-1].split("|")
@@ -1162,3 +1191,140 @@ def shrink(stream, line):
         yield from C.shrink_tokens(" ".join(w))
     else:
         yield from C.shrink_tokens(line)
+
+
+# --------------------------------------------------------------------------------------------------
+# `g-*` / `pyu` streams: the definitions translated from the source of pe.py (Gen/PyPe.lean)
+# --------------------------------------------------------------------------------------------------
+
+def g_line(line: str) -> str:
+    """the case line of a PE stream for the translated definition: in half of the cases an argument that equals its DOCUMENTED default
+    is written `dflt` (= left out of the real call; the Lean side then takes the default the source has)"""
+    import zlib
+    w = line.split(" ")
+    if w[0] in PE_OPS and zlib.crc32(("g" + line).encode()) % 2 == 0:
+        if w[4] == str(DOC_DEFAULTS["start_offset"]):
+            w[4] = "dflt"
+        if w[5] == str(DOC_DEFAULTS["maxrange"]):
+            w[5] = "dflt"
+    return "g" + " ".join(w)
+
+
+_PE_FUNCS = {"mz": "find_mz_offset", "arch": "find_architecture", "stamps": "find_compile_stamps", "mmz": "find_magic_mz", "mpe": "find_magic_pe",
+             "ppa": "find_stage_prepend_append"}
+
+
+def _fmt_pe(op, r, tell):
+    if op == "mz":
+        return f"{_oi(r)} {tell}"
+    if op == "arch":
+        return f"{'none' if r is None else r} {tell}"
+    if op == "stamps":
+        return f"ok {_oi(r[0])} {_oi(r[1])} {tell}"
+    if op == "mmz":
+        return f"{_ob(r)} {tell}"
+    if op == "mpe":
+        return f"ok {_ob(r)} {tell}"
+    return f"ok {_ob(r[0])} {_ob(r[1])} {tell}"
+
+
+def _g_impl(stream, line):
+    w = line.split(" ")
+    if stream in ("g-pehist", "g-tbl", "g-cfg", "g-hist"):
+        return impl0(stream[2:], line[1:])
+    if stream == "g-argv":
+        key = pyuval.pparse(w[2])
+        bv = version.BeaconVersion.from_pe_export_stamp(key) if w[1] == "pe" else version.BeaconVersion.from_max_setting_enum(key)
+        return f"{txt(str(bv))} {_ver(bv)}"
+    if stream == "g-arg":
+        args = [pyuval_t15.parse(t) for t in w[2:5]]
+        with pyuval_t15.Opened(args) as a:
+            r = getattr(pe, _PE_FUNCS[w[1]])(*a)
+            tell = a[0].tell() if isinstance(args[0], pyuval_t15.FileSpec) else "-"      # (no helper touches a non-file `fh` when maxrange ≤ 0)
+        return "ok " + pyuval.pshow(pyuval_t18.norm(r)) + " " + str(tell)
+    op = stream[2:]
+    kw = {}
+    if w[4] != "dflt":
+        kw["start_offset"] = None if w[4] == "none" else int(w[4])
+    if w[5] != "dflt":
+        kw["maxrange"] = int(w[5])
+    fh = _open(w[1], C.unhx(w[2]), int(w[3]))
+    try:
+        r = getattr(pe, _PE_FUNCS[op])(fh, **kw)
+        return _fmt_pe(op, r, fh.tell())
+    finally:
+        fh.close()
+
+
+def impl(stream, line):
+    if stream == "pyu":
+        return pyuval_t18.run(line)
+    if stream.startswith("g-"):
+        return _g_impl(stream, line)
+    return impl0(stream, line)
+
+
+def nontrivial(stream, line, out):
+    if stream in ("pyu", "g-arg", "g-argv"):
+        return not out.startswith("exc ")
+    if stream.startswith("g-"):
+        return nontrivial0(stream[2:], line[1:], out)
+    return nontrivial0(stream, line, out)
+
+
+def oracle(stream, line, out):
+    if stream.startswith("g-") or stream == "pyu":
+        return None
+    return oracle0(stream, line, out)
+
+
+def shrink(stream, line):
+    if stream in ("pyu", "g-arg", "g-argv"):
+        return
+    if stream.startswith("g-"):
+        if " dflt " in line:
+            return
+        for cand in shrink0(stream[2:], line[1:]):
+            yield "g" + cand
+        return
+    yield from shrink0(stream, line)
+
+
+def garg_case(rng):
+    """arguments of any kind for the translated helpers.  (The translation evaluates the arguments of `fh.seek(a + b)` before it looks the
+    method up on `fh`; CPython does it the other way round — the two differ only when BOTH fail, so a non-file `fh` comes with well-typed
+    arguments here.)"""
+    op = rng.choice(PE_OPS)
+    if rng.random() < 0.85:
+        img = Img(rng, arch=rng.choice(["x86", "x64"]), lfanew=rng.choice([64, 64, 72, 128]), nsec=rng.choice([0, 1, 2]), export=rng.choice(["in", "out", "none"]),
+                  append=rng.choice([b"", b"AB\x00"]))
+        pre = safe_prepend(rng, rng.choice([0, 0, 1, 3, 7]))
+        data = pre + img.build(rng)
+        if rng.random() < 0.3:
+            data = data[:rng.randrange(0, len(data) + 1)]
+        f = pyuval_t15.FileSpec(data, rng.choice([0, 0, 1, len(pre), len(data), len(data) + 3]), rng.choice([0, 0, 1]))
+        start = rng.choice([0, 0, None, 1, len(pre), 3, -1, True, False, "1", b"", [0], (1,)])
+        maxrange = rng.choice([1024, 1024, 200, 65, 64, 8, 1, 0, -1, -5, True, False, None, "a", b"", [4]])
+    else:
+        f = rng.choice([None, 5, b"ab", "ab", [1], (1, 2)])
+        start = rng.choice([0, None, 1, 7, True])
+        maxrange = rng.choice([0, 1, 3, -1, True, False, 1024])
+    return "garg " + op + " " + " ".join(pyuval_t15.show(x) for x in (f, start, maxrange))
+
+
+def gen(tier, rng, shard, nshards):
+    """every case that calls one of the six helpers is also run through the definition translated from its source"""
+    for stream, line in gen0(tier, rng, shard, nshards):
+        yield stream, line
+        if stream in G_STREAMS:
+            yield "g-" + stream, g_line(line)
+    for _ in range((20000 if tier == "thorough" else 4000) // nshards):
+        yield "g-arg", garg_case(rng)
+    keys = sorted(version.PE_EXPORT_STAMP_TO_VERSION) + sorted(version.MAX_ENUM_TO_VERSION)
+    for _ in range((4000 if tier == "thorough" else 400) // nshards):
+        key = rng.choice([rng.choice(keys), rng.choice(keys) + 1, 0, 1, 20, -1, True, False, None, "20", b"", (20,), [20], {}, 2 ** 40])
+        yield "g-argv", f"gargv {rng.choice(['pe', 'enum'])} {pyuval.pshow(key)}"
+    for _ in range((30000 if tier == "thorough" else 6000) // nshards):
+        line = pyuval_t18.case(rng)
+        if line is not None:
+            yield "pyu", line
